@@ -186,9 +186,21 @@ func Verif_C09_history() {
 	verifReach("end")
 }
 
+type verifC09Storage interface {
+	data.StorageManager
+}
+
+func verifAccountCreator() state.AccountFactory { return factory.NewAccountCreator() }
+
 func verifC09New() *verifC09Chain {
 	db := &verifDB{}
 	tsm := &verifPruningTSM{verifTSM: verifTSM{db: db}}
+	c := verifC09NewWith(tsm, db)
+	c.tsm = tsm
+	return c
+}
+
+func verifC09NewWith(tsm data.StorageManager, db *verifDB) *verifC09Chain {
 	tr, _ := NewTrie(tsm, &marshal.GogoProtoMarshalizer{}, blake2b.NewBlake2b(), 5)
 	ewl, err := evictionWaitingList.NewEvictionWaitingList(100, verifPersister{db: &verifDB{}}, &marshal.GogoProtoMarshalizer{})
 	verifAssert(err == nil, "eviction waiting list created")
@@ -196,7 +208,7 @@ func verifC09New() *verifC09Chain {
 	verifAssert(err == nil, "pruning manager created")
 	adb, err := state.NewAccountsDB(tr, blake2b.NewBlake2b(), &marshal.GogoProtoMarshalizer{}, factory.NewAccountCreator(), spm)
 	verifAssert(err == nil, "accounts db created")
-	c := &verifC09Chain{adb: adb, tsm: tsm, db: db}
+	c := &verifC09Chain{adb: adb, db: db}
 	c.final = verifC09Block{balances: [2]*big.Int{big.NewInt(0), big.NewInt(0)}}
 	c.commitBlock("g")
 	c.finalizeOldest()
